@@ -375,13 +375,9 @@ def r6_stride_is_running_product(ctx, rule="C04.R6"):
 
 
 def _role_expr(o):
-    """'offset' for (arg - lbound)"""
-    o = mir.strip_all(o)
-    while o[0] == "field" and isinstance(o[1], mir.Origin) and o[1][0] == "bin":
-        o = o[1]
-    if o[0] == "bin" and o[1].startswith("Sub"):
-        if _role(o[2]) == "arg" and _role(o[3]) == "lbound":
-            return "offset"
+    """'offset' for (arg - lbound), however the subtraction is spelled (operator on values, `Sub::sub` on references)"""
+    if _lin(o) == {"arg": 1, "lbound": -1}:
+        return "offset"
     return None
 
 
